@@ -352,6 +352,8 @@ def rule_r6(prog, res) -> None:
     ss = sc.methods["_set_scales"]
     res.touch(ss)
     spaths = symx.explore(prog, ss, inline=symx.inline_private_helpers(prog))
+    if len(ss.param_names()) < 3:
+        raise AnalysisError(f"C15.R6: Scales._set_scales no longer takes the lower and the upper limits as two parameters ({ss.param_names()[1:]}): strictness witnesses not applicable")
     pmin, pmax = ss.param_names()[1:3]
     sverdict = {}
     from ..effects import Vec
@@ -378,7 +380,9 @@ def rule_r6(prog, res) -> None:
         if i2 is None:
             continue
         res.touch(i2)
-        ipaths = [p for p in symx.explore(prog, i2, inline=lambda caller, call, callee: callee.cls is not None and callee.name not in ("_set_scales", "__init__")) if p.outcome != "raise"]
+        bases_ = [k for k in prog.mro(sub)[1:] if isinstance(k, ClassInfo)]
+        # (a constructor of a base class reached through super().__init__ is part of this class's construction)
+        ipaths = [p for p in symx.explore(prog, i2, inline=lambda caller, call, callee, bases_=bases_: callee.cls is not None and (callee.name not in ("_set_scales", "__init__") or (callee.name == "__init__" and callee.cls in bases_))) if p.outcome != "raise"]
         ok_ = bool(ipaths)
         for p in ipaths:
             unit_v = p.store.get("self.unit")
@@ -866,6 +870,14 @@ def rule_r15(prog, res) -> None:
                 res.violation("C15.R15", m, c, f"RedshiftBinningFactory.{name} makes `{unparse(cnt)}` edges instead of {nb} + 1: the configuration reports {nb} bins, the measurement has another number (arrays per bin are sized by the edges)", key_extra=f"factory-edge-count-{name}")
         if name == "logspace":
             logs = [c for c in calls_in(m) if (dotted(c.func) or "").split(".")[-1] in ("log", "log1p")]
+            if not logs:
+                # the transformation may sit in a helper / a strategy function: read it off the symbolic paths
+                seen_l = set()
+                for p_ in symx.explore(prog, m, inline=symx.inline_private_helpers(prog)):
+                    for ev in p_.calls():
+                        if (dotted(ev.expr.func) or "").split(".")[-1] in ("log", "log1p") and unparse(ev.expr) not in seen_l and ev.expr.args:
+                            seen_l.add(unparse(ev.expr))
+                            logs.append(ev.expr)
             fwd_ok = bool(logs) and all(((dotted(c.func) or "").endswith("log1p")) or all(isinstance(y, ast.BinOp) and isinstance(y.op, ast.Add) and any(isinstance(z, ast.Constant) and z.value == 1 for z in (y.left, y.right)) for y in (c.args[0].elts if isinstance(c.args[0], (ast.List, ast.Tuple)) else [c.args[0]])) for c in logs)
             # (on the symbolic store: the exponentiated grid may travel through locals / helpers before the 1 is taken off)
             exprs_ = []
